@@ -1515,6 +1515,10 @@ type ServerSession struct {
 	// via jsonrpc2.Connection.Cancel to avoid deadlocking on the jsonrpc2
 	// drain. See modelcontextprotocol/go-sdk#1160.
 	listenIDs []jsonrpc.ID
+	// closing is set by Close when it collects listenIDs: a listen that is
+	// dispatched later (it was still queued behind another handler) must not
+	// park, since nobody would cancel it any more.
+	closing bool
 }
 
 func (ss *ServerSession) updateState(mut func(*ServerSessionState)) {
@@ -1970,8 +1974,14 @@ func (ss *ServerSession) handle(ctx context.Context, req *jsonrpc.Request) (any,
 	// avoid deadlocking on the jsonrpc2 drain.
 	if req.Method == methodSubscriptionsListen {
 		ss.mu.Lock()
-		ss.listenIDs = append(ss.listenIDs, req.ID)
+		closing := ss.closing
+		if !closing {
+			ss.listenIDs = append(ss.listenIDs, req.ID)
+		}
 		ss.mu.Unlock()
+		if closing {
+			return nil, fmt.Errorf("%w: session is closing", jsonrpc2.ErrServerClosing)
+		}
 	}
 
 	res, err := handleReceive(ctx, ss, req)
@@ -2095,6 +2105,7 @@ func (ss *ServerSession) Close() error {
 	ss.mu.Lock()
 	ids := ss.listenIDs
 	ss.listenIDs = nil
+	ss.closing = true
 	ss.mu.Unlock()
 	for _, id := range ids {
 		ss.conn.Cancel(id)
